@@ -74,6 +74,31 @@ def same_positions(a, b, tol):
     return all(abs(x - y) <= tol * max(1.0, abs(x), abs(y)) for x, y in zip(flat(a), flat(b)))
 
 
+def traced_shift(pos, old):
+    """the `positions` argument `_overlap_projection` hands to fft_shift (recorded by wrapping the function inside abtem.reconstruct)"""
+    import abtem.reconstruct as rec
+
+    seen = []
+    orig = rec.fft_shift
+
+    def wrapper(array, positions):
+        seen.append([float(v) for v in np.asarray(positions)])
+        return orig(array, positions)
+
+    rec.fft_shift = wrapper
+    try:
+        R()._overlap_projection(np.ones((6, 6), dtype=complex), np.ones((3, 3), dtype=complex), np.array(pos, dtype=float), np.array(old, dtype=float))
+    finally:
+        rec.fft_shift = orig
+    return seen[0] if len(seen) == 1 else seen
+
+
+def reference_shift(P, d):
+    """independent Fourier shift of P by d pixels"""
+    nx, ny = P.shape
+    return np.fft.ifft2(np.fft.fft2(P) * np.exp(-2j * np.pi * (np.fft.fftfreq(nx)[:, None] * d[0] + np.fft.fftfreq(ny)[None] * d[1])))
+
+
 # ----------------------------------------------------------------------------- generators
 def gen_window(ctx):
     rng = ctx.rng
@@ -136,12 +161,18 @@ class C28(Property):
         cases = []
         for _ in range(ctx.n(200, 4000)):
             cases.append(dict(op="round", x=rng.choice([rng.randint(-40, 40) + 0.5, dyadic(rng, -40, 40, 4), float(rng.randint(-5, 5))])))
+        for _ in range(ctx.n(150, 3000)):  # quarter-pixel grid: fractional parts that differ by more than 1/2, ties, negatives
+            cases.append(dict(op="shift", pos=[rng.randint(-12, 40) / 4, rng.randint(-12, 40) / 4],
+                              old=[rng.randint(-12, 40) / 4, dyadic(rng, -3, 10, 3)]))
         cases += [gen_window(ctx) for _ in range(ctx.n(300, 6000))]
         cases += [gen_positions(ctx) for _ in range(ctx.n(300, 6000))]
         lines = []
         for c in cases:
             if c["op"] == "round":
                 lines.append(f"round {rat_s(c['x'])}")
+            elif c["op"] == "shift":
+                lines.append(f"shift {rat_s(c['pos'][0])} {rat_s(c['old'][0])}")
+                lines.append(f"shift {rat_s(c['pos'][1])} {rat_s(c['old'][1])}")
             elif c["op"] == "window":
                 lines.append(f"window {rat_s(c['cx'])} {rat_s(c['cy'])} {c['nx']} {c['ny']} {c['sx']} {c['sy']}")
             else:
@@ -150,7 +181,17 @@ class C28(Property):
         outs = drv.query(lines + bad)
         for l, o in zip(bad, outs[len(lines):]):
             ctx.agree("driver rejects malformed request", l, o, "bad-op")
-        for c, out in zip(cases, outs):
+        outs = iter(outs)
+        for c in cases:
+            out = next(outs)
+            if c["op"] == "shift":
+                out2 = next(outs)
+                ctx.agree("_overlap_projection sub-pixel shift handed to fft_shift", c,
+                          [float(Fraction(out.split()[1])), float(Fraction(out2.split()[1]))], traced_shift(c["pos"], c["old"]))
+                d = abs((c["pos"][0] - round(c["pos"][0])) - (c["old"][0] - round(c["old"][0])))
+                ctx.count("shift:" + ("fractional parts differ by > 1/2" if d > 0.5 else "<= 1/2"))
+                ctx.case(c, nontrivial=True)
+                continue
             if c["op"] == "round":
                 ctx.agree("np.round (half to even)", c, int(out.split()[1]), int(np.round(c["x"])))
                 ctx.count("round:" + ("tie" if (c["x"] * 2) % 2 == 1 else "plain"))
@@ -215,6 +256,27 @@ class C28(Property):
             out2, _ = M._fourier_projection(out, D, 0.0)
             if np.abs(out2 - out).max() > tol:
                 ctx.violation("mixed-projection-idempotent", c, {"max_abs_diff": float(np.abs(out2 - out).max())})
+        elif kind == "overlap-path":
+            (sx, sy), (nx, ny) = c["object_shape"], c["probe_shape"]
+            obj = np.exp(1j * rs.normal(size=(sx, sy)))
+            probe0 = rs.normal(size=(nx, ny)) + 1j * rs.normal(size=(nx, ny))
+            from abtem.reconstruct import _wrapped_indices_2D_window
+
+            probes, old = probe0.copy(), np.array(c["path"][0], dtype=float)
+            fr = lambda v: np.array([x - round(x) for x in v])  # Python round: half to even, like numpy
+            for pos in c["path"][1:]:
+                pos = np.array(pos, dtype=float)
+                probes, exit_wave = R()._overlap_projection(obj, probes, pos, old)
+                # after any path the probe sits at the fractional part of the current position (relative to the start)
+                ref = reference_shift(probe0, fr(pos) - fr(np.array(c["path"][0], dtype=float)))
+                if np.abs(probes - ref).max() > 1e-5 * max(1.0, np.abs(ref).max()):
+                    ctx.violation("overlap-probe-not-at-fractional-position", c, {"position": pos.tolist(), "old_position": old.tolist(),
+                                                                                "max_abs_diff": float(np.abs(probes - ref).max())})
+                    return
+                idx = _wrapped_indices_2D_window(pos, probes.shape, obj.shape)
+                if np.abs(exit_wave - obj[idx] * probes).max() > 1e-12:
+                    ctx.violation("overlap-projection-not-object-times-probe", c, {"position": pos.tolist()}); return
+                old = pos
         elif kind == "true-solution":
             (sx, sy), (nx, ny) = c["object_shape"], c["probe_shape"]
             obj = np.exp(1j * rs.normal(size=(sx, sy))) * (0.5 + rs.random((sx, sy)))
@@ -300,6 +362,10 @@ class C28(Property):
             out.append(dict(kind="projection", seed=rng.randint(0, 2**31), shape=[rng.randint(1, 9), rng.randint(1, 9)],
                             scale=rng.choice([1.0, 1e-3, 50.0]), zero_fraction=rng.choice([0.0, 0.2, 1.0]), kill=rng.random() < 0.3,
                             sse0=rng.choice([0.0, 0.25])))
+        for _ in range(ctx.n(40, 800)):
+            sx, sy = rng.randint(4, 12), rng.randint(4, 12)
+            out.append(dict(kind="overlap-path", seed=rng.randint(0, 2**31), object_shape=[sx, sy], probe_shape=[rng.randint(2, sx), rng.randint(2, sy)],
+                            path=[[rng.randint(-8, 40) / 4, rng.randint(-8, 40) / 4] for _ in range(rng.randint(2, 5))]))
         for _ in range(ctx.n(20, 400)):
             out.append(dict(kind="mixed-projection", seed=rng.randint(0, 2**31), modes=rng.randint(1, 4), shape=[rng.randint(1, 8), rng.randint(1, 8)],
                             scale=rng.choice([1.0, 1e-3, 50.0])))
